@@ -28,6 +28,8 @@ func init() {
 		},
 		Workloads: []core.Workload{
 			{Name: "main", Variant: "plain", N: core.Tiered(41*42, 41*7*4*2*12), Run: c04Main},
+			// "all cell counts" includes none: a Run over a state array without rows returns and writes nothing
+			{Name: "nocells", Variant: "plain", N: core.Tiered(41*2, 41*20), Run: c04NoCells},
 			{Name: "initstates", Variant: "plain", N: core.Tiered(180, 3000), Run: c04InitStates},
 			// generation-sized runs: the property holds for ALL cell counts; ow-sim hands several thousand cells to one Run.
 			// Counts sit on and beside powers of two and round numbers, where batching / chunking logic changes behaviour.
@@ -412,4 +414,51 @@ func c04ManyCells(c *core.Ctx) {
 	c.Tag("manycells")
 	c.Max("largest_cell_count_in_one_run", float64(N))
 	checkVectorisedEqualsSingle(c, run, "")
+}
+
+func c04NoCells(c *core.Ctx) {
+	names := ModelNames()
+	model := names[c.Idx%len(names)]
+	T := c.R.IntRange(1, 8)
+	B := c.R.IntRange(0, 2)     // input blocks present although no cell uses them (or none at all)
+	rows := []int{0, 0, 2}[c.R.Intn(3)] // output rows: none, or a larger zero-initialised array
+	ps := GenPSet(model, c.R, genOpts{widthClass: 1 + c.R.Intn(13)})
+	var blocks [][][]float64
+	for b := 0; b < B; b++ {
+		blocks = append(blocks, GenInputs(model, c.R, T, ps))
+	}
+	c.Begin(map[string]interface{}{"model": model, "cells": 0, "timesteps": T, "input_blocks": B, "output_rows": rows, "params": ps})
+	c.Class(fmt.Sprintf("nocells/%s/B%d/rows%d", model, B, rows))
+	m := NewModel(model)
+	desc := m.Description()
+	params := Arr2(FlattenParams(desc, []PSet{ps}))
+	if dims := m.FindDimensions(params); len(dims) > 0 {
+		m.InitialiseDimensions(dims)
+	}
+	m.ApplyParameters(params)
+	one := m.InitialiseStates(1)
+	states := data.NewArray2DFloat64(0, one.Shape()[1])
+	inputs := data.NewArray3DFloat64(B, len(desc.Inputs), T)
+	for b := range blocks {
+		for j := range blocks[b] {
+			for t, v := range blocks[b][j] {
+				inputs.Set3(b, j, t, v)
+			}
+		}
+	}
+	outputs := data.NewArray3DFloat64(rows, len(desc.Outputs), T)
+	if !c.Guard("run-over-no-cells-panics", model, func() { m.Run(inputs, states, outputs) }) {
+		return
+	}
+	for i := 0; i < rows; i++ {
+		for j := 0; j < len(desc.Outputs); j++ {
+			for t := 0; t < T; t++ {
+				if v := outputs.Get3(i, j, t); math.Float64bits(v) != 0 {
+					c.Violate("padding-written", model, fmt.Sprintf("a Run over NO cells wrote %v into output[%d][%d][%d] (an output array larger than needed)", v, i, j, t))
+					return
+				}
+			}
+		}
+	}
+	c.Count("runs_over_no_cells", 1)
 }
